@@ -760,6 +760,11 @@ fn fixed_corpus() -> Vec<(&'static str, String)> {
         c.push(("digit", d.to_string()));
     }
     c.push(("empty", String::new()));
+    // non-ASCII strings whose Unicode case mappings spell a name (dotless i, ligatures, long s,
+    // Kelvin sign, fullwidth letters): only ASCII case is ignored
+    for s in ["ınfo", "ıNFO", "İNFO", "oﬀ", "Oﬀ", "OﬀF", "waRn\u{200b}", "tʀace", "ｉｎｆｏ", "ＯＦＦ", "ERROR\u{0301}", "error\u{feff}", "ſtrace", "debuɡ", "DEBUG\u{3000}", "trac\u{212f}", "\u{212a}"] {
+        c.push(("unicode-lookalike", s.to_string()));
+    }
     // numbers in range written differently (accepted either way), and out of range (rejected)
     for d in 0..=9 {
         for z in [1usize, 2, 3, 19, 20, 21, 40] {
